@@ -182,3 +182,15 @@ Theorem c14_leader_init_finds_session_partial : forall meta_dec st now z e t l,
   In (z, mkSess t now) l.
 Proof. exact leader_init_finds_session. Qed.
 Print Assumptions c14_leader_init_finds_session_partial.
+
+(* The end of a session is one request (one log entry): all listed keys, the session key and the shadow range. *)
+Theorem c14_cleanup_write_is_one_request : forall meta_enc meta_dec cfg mn mx w id offset ts c rest,
+  take_closing has_keys id (sw_closing w) = Some (c, rest) ->
+  sw_db (fst (step meta_enc meta_dec cfg mn mx w (ACleanupWrite id offset ts))) =
+  fst (process_write wrapper_callbacks cfg (sw_db w)
+         (cleanup_request id (match cl_keys c with Some ks => ks | None => [] end)) offset ts) /\
+  w_puts (cleanup_request id (match cl_keys c with Some ks => ks | None => [] end)) = [] /\
+  In (mkDel (session_key id) None) (w_dels (cleanup_request id (match cl_keys c with Some ks => ks | None => [] end))) /\
+  w_ranges (cleanup_request id (match cl_keys c with Some ks => ks | None => [] end)) = [mkRange (shadow_lo id) (shadow_hi id)].
+Proof. exact cleanup_write_is_one_request. Qed.
+Print Assumptions c14_cleanup_write_is_one_request.
